@@ -3,12 +3,12 @@
 package zzverif
 
 import (
-	"reflect"
 	"context"
 	"encoding/json"
 	"fmt"
 	"os"
 	"path/filepath"
+	"reflect"
 	"regexp"
 	"runtime"
 	"sort"
@@ -330,14 +330,9 @@ func racePeersJob(a raceArgs) (any, error) {
 
 func init() { jobHandlers["race"] = raceJob }
 
-// racePass runs every concurrent scenario free-running under the race detector.
-func racePass(rep *Report, scens ...string) map[string]any {
-	exe := os.Getenv("VRACE_BIN")
-	if _, err := os.Stat(exe); err != nil {
-		rep.EngineError("race pass: no -race build available (" + exe + ")")
-		return map[string]any{"ran": false}
-	}
-	pool := NewPool(8)
+// racePool: workers of the -race build, their detector reports going to per-process log files.
+func racePool(exe string, n int) (*Pool, string) {
+	pool := NewPool(n)
 	pool.Exe = exe
 	pool.Procs = 4
 	pool.Timeout = 15 * time.Minute
@@ -347,6 +342,17 @@ func racePass(rep *Report, scens ...string) map[string]any {
 		os.Remove(f)
 	}
 	pool.Env = []string{"GORACE=log_path=" + logBase + " exitcode=0 halt_on_error=0 history_size=2", "VRACE_LOG=" + logBase, "VWORKER_RECYCLE=100000"}
+	return pool, logBase
+}
+
+// racePass runs every concurrent scenario free-running under the race detector.
+func racePass(rep *Report, scens ...string) map[string]any {
+	exe := os.Getenv("VRACE_BIN")
+	if _, err := os.Stat(exe); err != nil {
+		rep.EngineError("race pass: no -race build available (" + exe + ")")
+		return map[string]any{"ran": false}
+	}
+	pool, logBase := racePool(exe, 8)
 	iters := 15
 	if rep.Tier == "thorough" {
 		iters = 100
@@ -398,7 +404,7 @@ func racePass(rep *Report, scens ...string) map[string]any {
 			rep.EngineError("race pass " + names[i] + ": " + f)
 		}
 	}
-	old, _ = filepath.Glob(logBase + "*")
+	old, _ := filepath.Glob(logBase + "*")
 	for _, f := range old {
 		os.Remove(f)
 	}
